@@ -85,4 +85,117 @@ def recvF (s : PSt) : Recv :=
 /-- `fallback.start()`. -/
 def start (s : PSt) : PSt := { s with running := true }
 
+
+/-!
+## Pull code over `n` fetchers (`FormulaEvaluator`, `tools/extractors/evaluator_pull.py` → `Extracted/EvaluatorPull.lean`)
+
+`FormulaEvaluator.apply` / `_synchronize_metric_timestamps` only ever await `fetch_next()` of the fetchers in
+`self._metric_fetchers` (a dict name → fetcher; names are numbered `0, 1, …` here, `names` = its keys in insertion
+order).  Every fetcher is a plain `MetricFetcher` reading its own FIFO queue `qs i`: `fetch_next()` pops the head and
+stores it as the fetcher's `value` (`cur i`); on an empty queue the whole call has no result yet (`block`; closed
+channels are not modelled).  Generic in the sample type `S`.
+
+`asyncio.wait([create_task(f.fetch_next(), name=n) for n, f in fetchers.items()], return_when=ALL_COMPLETED)` is
+`gather`: one sample popped from every queue (blocks if any is empty); the finished tasks are a *set*, whose
+iteration order is arbitrary but fixed: the oracle `order` (a permutation of `names` in every theorem).
+A task is the pair (its name, its result).
+-/
+
+/-- `asyncio.Task`: name and result. -/
+abbrev ATask (S : Type) := Nat × Option S
+
+/-- `dict[datetime, list[str]]` in insertion order. -/
+abbrev Dict := List (Int × List Nat)
+
+structure EvSt (S : Type) where
+  names : List Nat              -- keys of the fetcher dict, insertion order (constant)
+  order : List Nat              -- iteration order of the set of finished tasks (constant oracle)
+  qs : Nat → List S             -- receiver queue of every fetcher
+  cur : Nat → Option S          -- `fetcher.value` (`_next_value`): the last sample it fetched
+  firstRun : Bool               -- the evaluator's `True`-initialised flag
+
+/-- Exceptions of the evaluator: `RuntimeError` and anything else (AssertionError, KeyError, StopIteration, …). -/
+inductive EExc where
+  | runtime
+  | fault
+deriving DecidableEq, Repr
+
+inductive EOut (S : Type) (α : Type) where
+  | ok (a : α) (s : EvSt S)
+  | exc (e : EExc) (s : EvSt S)
+  | block
+
+/-- How a loop ended: normally (with the loop-carried locals) or by a `return`. -/
+inductive Flow (ρ : Type) (γ : Type) where
+  | next (c : γ)
+  | ret (v : ρ)
+
+inductive EFetch (S : Type) where
+  | got (v : Option S) (s : EvSt S)
+  | block
+
+inductive EGather (S : Type) where
+  | got (ready pending : List (ATask S)) (s : EvSt S)
+  | block
+
+def setAt {α : Type} (f : Nat → α) (i : Nat) (v : α) : Nat → α := fun j => if j = i then v else f j
+
+/-- `await <fetcher i>.fetch_next()` -/
+def fetchNext {S : Type} (i : Nat) (s : EvSt S) : EFetch S :=
+  match s.qs i with
+  | v :: r => .got (some v) { s with qs := setAt s.qs i r, cur := setAt s.cur i (some v) }
+  | [] => .block
+
+/-- one `fetch_next()` of every fetcher in the list; `none` = some queue is empty -/
+def fetchAll {S : Type} : List Nat → EvSt S → Option (EvSt S)
+  | [], s => some s
+  | i :: r, s =>
+    match fetchNext i s with
+    | .got _ s' => fetchAll r s'
+    | .block => none
+
+/-- `await asyncio.wait([create_task(f.fetch_next(), name=n) for n, f in fetchers.items()], ALL_COMPLETED)` -/
+def gather {S : Type} (s : EvSt S) : EGather S :=
+  match fetchAll s.names s with
+  | some s' => .got (s'.order.map (fun i => (i, s'.cur i))) [] s'
+  | none => .block
+
+/-- number of samples still queued (the fuel of `while` loops that fetch) -/
+def totalLen {S : Type} (s : EvSt S) : Nat := (s.names.map (fun i => (s.qs i).length)).sum
+
+namespace Dict
+
+def has (d : Dict) (k : Int) : Bool := d.any (fun e => e.1 == k)
+
+def get? : Dict → Int → Option (List Nat)
+  | [], _ => none
+  | (k', l) :: r, k => if k' = k then some l else get? r k
+
+/-- `d[k] = v` -/
+def set : Dict → Int → List Nat → Dict
+  | [], k, v => [(k, v)]
+  | (k', l) :: r, k, v => if k' = k then (k', v) :: r else (k', l) :: set r k v
+
+/-- `d.setdefault(k, v)` (the dict afterwards) -/
+def setdefault (d : Dict) (k : Int) (v : List Nat) : Dict := if has d k then d else d ++ [(k, v)]
+
+/-- `d[k].append(x)`; `none` = KeyError -/
+def appendAt : Dict → Int → Nat → Option Dict
+  | [], _, _ => none
+  | (k', l) :: r, k, x =>
+    if k' = k then some ((k', l ++ [x]) :: r)
+    else match appendAt r k x with
+      | some r' => some ((k', l) :: r')
+      | none => none
+
+/-- `max(d)`; `none` = ValueError (empty) -/
+def maxKey : Dict → Option Int
+  | [] => none
+  | (k, _) :: r =>
+    match maxKey r with
+    | some m => some (if m > k then m else k)
+    | none => some k
+
+end Dict
+
 end Pull
